@@ -242,6 +242,13 @@ def run(ctx):
             ctx.problem('oracle', 'property fails on the implementation: ' + why, inputs=js, failing_input_found=True)
             break
     ctx.suites['option_lattice'] = {'instances': ctx.n(30, 240)}
+    for _ in range(ctx.n(3, 12)):
+        why = constrained_lattice(ctx.rng)
+        ctx.evaluations += 6
+        ctx.count('stream', 'constrained_lattice')
+        if why:
+            ctx.problem('oracle', 'property fails on the implementation: ' + why, inputs={'suite': 'constrained_lattice'}, failing_input_found=True)
+            break
     why = probe_kernel_scale()
     ctx.suites['kernel_basis_small_scale'] = {'cases': 3, 'failure': why}
     ctx.evaluations += 3
@@ -273,6 +280,56 @@ def probe_f7():
         sc.SETTINGS.clear()
         sc.SETTINGS.update(saved)
     return v0[0] == 'solved' and v0[1] > -1 and v1[0] == 'solved' and v1[1] == -math.inf
+
+
+def constrained_lattice(rng):
+    """the options also reach the dual cones of the Lagrange multipliers of constrained relaxations: same value for every combination"""
+    import sageopt.coniclifts as cl
+    import sageopt as so
+    import sageopt.coniclifts.constraints.set_membership.sage_cones as sc
+    from sageopt.relaxations import sage_sigs as ss
+    y = so.standard_sig_monomials(2)
+    fam = rng.randrange(3)
+    if fam == 0:
+        f, gts = y[0] + y[0] ** 2 + float(rng.choice([0, 1])), [1 - y[0] ** 2]
+    elif fam == 1:
+        f, gts = y[0] + y[1] ** 2 + y[0] ** -1, [2 - y[0] - y[1], y[1] - 0.5]
+    else:
+        f, gts = y[0] ** 2 + y[1] - float(rng.choice([1, 2])) * y[0], [4 - y[0] ** 2 - y[1] ** 2]
+    saved = dict(sc.SETTINGS)
+    out = {}
+    try:
+        with warnings.catch_warnings():
+            warnings.simplefilter('ignore')
+            for form in ('primal', 'dual'):
+                for pre, comp, feq in itertools.product((False, True), repeat=3):
+                    if (form == 'dual' and feq) or (form == 'primal' and comp):
+                        continue
+                    sc.SETTINGS.update(saved)
+                    cl.presolve_trivial_age_cones(pre)
+                    cl.compact_sage_duals(comp)
+                    cl.sum_age_force_equality(feq)
+                    try:
+                        out[(form, pre, comp, feq)] = ss.sig_constrained_relaxation(f, gts, [], form=form, p=0, q=1, ell=0).solve(verbose=False)
+                    except RuntimeError as e:
+                        out[(form, pre, comp, feq)] = ('construction-error', str(e)[:50])
+    finally:
+        sc.SETTINGS.clear()
+        sc.SETTINGS.update(saved)
+    ref = None
+    for k, v in out.items():
+        if v[0] == 'construction-error':
+            v = ('solved', -math.inf if k[0] == 'primal' else math.inf)
+        if v[0] != 'solved' or not isinstance(v[1], float) or math.isnan(v[1]):
+            continue
+        if k[3]:
+            continue            # forced equality: known finding F7 may apply; compared by the unconstrained lattice only
+        if ref is None:
+            ref = (k, v[1])
+        elif (math.isfinite(v[1]) != math.isfinite(ref[1])) or (math.isfinite(v[1]) and abs(v[1] - ref[1]) > 1e-4 * (1 + abs(ref[1]))):
+            return ('constrained relaxation (family %d): value %r with options (form, presolve, compact_dual, force_equality)=%s but %r with %s'
+                    % (fam, ref[1], ref[0], v[1], k))
+    return None
 
 
 def probe_kernel_scale():
